@@ -1123,10 +1123,19 @@ func (sc *c16BGV) runRefresh(d *c16Deploy, ct *rlwe.Ciphertext, m []uint64, inNo
 	name := "Refresh"
 	var lin *c16Lin
 	rawOut := false
+	var funcInputAbove uint64
 	if withTransform {
 		name = "MaskedTransform"
 		lin = drawLin(ch, len(m), sc.T)
-		tf = &mpbgv.MaskedTransformFunc{Decode: true, Encode: true, Func: func(c []uint64) { lin.apply(c, sc.T) }}
+		tf = &mpbgv.MaskedTransformFunc{Decode: true, Encode: true, Func: func(c []uint64) {
+			// the function is documented to receive integers modulo the plaintext modulus
+			for _, v := range c {
+				if v >= sc.T && funcInputAbove == 0 {
+					funcInputAbove = v
+				}
+			}
+			lin.apply(c, sc.T)
+		}}
 		if lin.desc == "identity" || lin.desc[:6] == "scalar" {
 			// coefficient-domain application is also legitimate for scalar maps
 			if ch.Bool("transform-no-decode") {
@@ -1254,6 +1263,10 @@ func (sc *c16BGV) runRefresh(d *c16Deploy, ct *rlwe.Ciphertext, m []uint64, inNo
 	}
 	if terr != nil {
 		ctx.Fail("protocol", name+".Transform|error", "Transform failed on valid inputs (ct level %d, e2s level %d, output level %d): %v", level, minLevel, outLevel, terr)
+		return false
+	}
+	if funcInputAbove != 0 {
+		ctx.Fail("contract", name+"|function-input-not-reduced", "the transform function (decode=%v) was handed the value %d, which is not an integer modulo the plaintext modulus %d (ciphertext level %d, decryption level %d)", tf.Decode, funcInputAbove, sc.T, level, minLevel)
 		return false
 	}
 	ctx.Event("%s ct-level=%d e2s-level=%d out-level=%d n=%d f=%v exact=%v", name, level, minLevel, outLevel, d.n, lin, exact)
